@@ -21,7 +21,7 @@ RULE = (
 )
 REQUIRED = ["batch_entries_compared", "batches/cache_on", "batches/cache_off", "batches/tiny_cache", "batches/parallel_entries",
             "batches/parallel_rules", "cache_coherence_evals", "lookalike_pairs_in_batches", "repeated_substrates_in_batches",
-            "validate_smiles_compared", "validate_records_where_tautomer_flag_matters", "balance_compared", "cluster_batches_compared", "syncrn_compared",
+            "validate_smiles_compared", "validate_records_where_tautomer_flag_matters", "validate_records_where_aromaticity_flag_matters", "balance_compared", "cluster_batches_compared", "syncrn_compared",
             "batches/adversarial_id", "nonempty_entry_results"]
 ASSUMPTIONS = [
     "reference for one entry: SynReactor on smiles_to_graph(entry) for each rule graph in order, flattened, order-preserving de-duplication",
@@ -188,23 +188,55 @@ def check_validators(ctx):
         prod_a = f"[CH3:1][C:2](=[O:3])[{het}{hs}:6]{''.join(reversed(__import__('re').findall(r'\[[^\]]*\]', tail)))}.[OH2:4]"
         prod_b = prod_a.replace("[O:3]", "[O:_]").replace("[OH2:4]", "[OH2:3]").replace("[O:_]", "[O:4]")
         recs.append({"ground_truth": left + ">>" + prod_a, "m1": left + ">>" + prod_b, "m2": left + ">>" + prod_a})
+    # records whose mappings differ only on bonds that change by half an order (aromatisation): verdict depends on
+    # ignore_aromaticity
+    import re as _re
+    arom = []
+    for r in wf:
+        a_, b_ = r.split(">>")
+        A_, B_ = R.side_tables(a_), R.side_tables(b_)
+        if A_ is None or B_ is None or len(r) > 400:
+            continue
+        half = [e for e in set(A_[1]) | set(B_[1]) if abs(A_[1].get(e, 0) - B_[1].get(e, 0)) == 0.5]
+        if len(half) >= 4:
+            arom.append((r, sorted({k for e in half for k in e})))
+        if len(arom) >= (2 if ctx.quick else 8):
+            break
+    for r, ring in arom:
+        same = [(i, j) for x, i in enumerate(ring) for j in ring[x + 1:]]
+        rng.shuffle(same)
+        for i, j in same[:3]:
+            x_, y_ = r.split(">>")
+            t_ = x_ + ">>" + _re.sub(r":(\d+)\]", lambda m: ":%d]" % ({i: j, j: i}.get(int(m.group(1)), int(m.group(1)))), y_)
+            recs.append({"ground_truth": r, "m1": t_, "m2": corpus.renumber(r, rng)})
+    # aromatisation with a substituent introduced at two non-equivalent ring positions: the two mappings differ only on
+    # bonds changing by half an order, so the RC verdict depends on ignore_aromaticity
+    for X in ("Br", "Cl"):
+        left = f"[CH:1]1=[CH:2][CH:3]=[CH:4][CH2:5][CH2:6]1.[{X}:7][{X}:8]"
+        inner = f"{left}>>[cH:1]1[c:2]([{X}:7])[cH:3][cH:4][cH:5][cH:6]1.[{X}H:8]"
+        term = f"{left}>>[c:1]1([{X}:7])[cH:2][cH:3][cH:4][cH:5][cH:6]1.[{X}H:8]"
+        recs.append({"ground_truth": inner, "m1": term, "m2": corpus.renumber(inner, rng)})
+        recs.append({"ground_truth": term, "m1": inner, "m2": term})
     # tautomer enumeration is expensive on large mixtures: the ignore_tautomers=False runs use the small records only
     small = [m for m in recs if len(m["ground_truth"]) < 160]
     recs_by_flag = {True: recs, False: small}
-    bases = {(method, ign): [[AAMValidator.check_pair(m, col, "ground_truth", method, False, ign) for m in recs_by_flag[ign]] for col in ("m1", "m2")]
-             for method in ("RC", "ITS") for ign in (True, False)}
+    bases = {(method, ign, ia): [[AAMValidator.check_pair(m, col, "ground_truth", method, ia, ign) for m in recs_by_flag[ign]] for col in ("m1", "m2")]
+             for method in ("RC", "ITS") for ign in (True, False) for ia in (False, True)}
+    for method in ("RC", "ITS"):
+        if bases[(method, True, False)] != bases[(method, True, True)]:
+            ctx.count("validate_records_where_aromaticity_flag_matters")
     for nj in (1, 2, 4):  # worker count outermost: joblib re-uses its executor while n_jobs stays the same
-        for (method, ign), base in bases.items():
+        for (method, ign, ia), base in bases.items():
             recs = recs_by_flag[ign]
             if True:
-                out = AAMValidator.validate_smiles(recs, "ground_truth", ["m1", "m2"], method, False, nj, 0, ign)
+                out = AAMValidator.validate_smiles(recs, "ground_truth", ["m1", "m2"], method, ia, nj, 0, ign)
                 ctx.count("validate_smiles_compared")
                 got = [o["results"] for o in out]
                 if ign is False and any(a != b for a, b in zip(base[0], [AAMValidator.check_pair(m, "m1", "ground_truth", method, False, True) for m in recs])):
                     ctx.count("validate_records_where_tautomer_flag_matters")
                 if got != base:
-                    ctx.violation("validate-smiles-depends-on-workers", {"method": method, "ignore_tautomers": ign, "n_jobs": nj, "records": recs[:3]},
-                                  f"validate_smiles(n_jobs={nj}, ignore_tautomers={ign}, {method}) = {got} but one-by-one checks give {base}")
+                    ctx.violation("validate-smiles-depends-on-workers", {"method": method, "ignore_tautomers": ign, "ignore_aromaticity": ia, "n_jobs": nj, "records": recs[:3]},
+                                  f"validate_smiles(n_jobs={nj}, ignore_tautomers={ign}, ignore_aromaticity={ia}, {method}) = {got} but one-by-one checks give {base}")
     rx = rng.sample(wf, 8 if ctx.quick else 40)
     rx += [r.split(">>")[0] + ">>" + ".".join(r.split(">>")[1].split(".")[:-1]) for r in rx[:4] if "." in r.split(">>")[1]]
     rng.shuffle(rx)
